@@ -13,6 +13,7 @@ package sched
 
 import (
 	"fmt"
+	"regexp"
 	"runtime/debug"
 	"strings"
 	"sync"
@@ -517,10 +518,17 @@ func ExploreShard(body func(), opt Options, shard, nshards int, check func(r Res
 func Replay(body func(), choices []int, opt Options) (Result, bool) {
 	r1 := RunOnce(body, choices, opt)
 	r2 := RunOnce(body, choices, opt)
-	same := strings.Join(r1.Obs, "|") == strings.Join(r2.Obs, "|") && r1.Failure == r2.Failure &&
+	same := normObs(strings.Join(r1.Obs, "|")) == normObs(strings.Join(r2.Obs, "|")) && normObs(r1.Failure) == normObs(r2.Failure) &&
 		strings.Join(r1.Faults, "|") == strings.Join(r2.Faults, "|") && fmt.Sprint(r1.Choices) == fmt.Sprint(r2.Choices)
 	return r1, same
 }
+
+var volatileText = regexp.MustCompile(`[^\s:"']*\.zap|0x[0-9a-f]+`)
+
+// normObs masks the parts of an observation that legitimately differ between two
+// executions of the same schedule: names of scratch files (every execution uses a
+// fresh one; they show up inside error texts of the operating system) and addresses.
+func normObs(s string) string { return volatileText.ReplaceAllString(s, "<volatile>") }
 
 // DefaultEnv runs fn with environment choice points answering their default
 // (used by harness code that only observes, so that the deviation budget is
